@@ -30,14 +30,17 @@ Naming(k) ==
 Namings == 1..5
 
 (* variant -> (pool of contents, number of import roots) *)
-PoolOf(v) == IF v \in {1, 3} THEN 1 ELSE 2
-RootsOf(v) == IF v \in {1, 4} THEN 1 ELSE 2
+(* 5..8: the pools with a multi-body / disjunctive aggregating predicate *)
+PoolOf(v) == CASE v \in {1, 3} -> 1 [] v \in {2, 4} -> 2
+               [] v \in {5, 7} -> 3 [] v \in {6, 8} -> 4
+RootsOf(v) == IF v \in {1, 4, 5, 8} THEN 1 ELSE 2
 Variants == 1..4
+AggVariants == 5..8
 
 FilesOf(n, nam, nroots) ==
-  <<[path |-> <<"main">>, root |-> 1]>> \o
+  <<[path |-> <<"main">>, root |-> 1, decoy |-> 0]>> \o
   [i \in 1..n |-> [path |-> Naming(nam)[i],
-                   root |-> IF nroots = 2 THEN 1 + (i % 2) ELSE 1]]
+                   root |-> IF nroots = 2 THEN 1 + (i % 2) ELSE 1, decoy |-> 0]]
 
 Al(t) == "Al" \o ToString(t)
 Edge(style, f, j, t) ==
@@ -72,6 +75,10 @@ Other(i) == IF i.pred = "Val"
             ELSE [t |-> i.t, pred |-> "Val", alias |-> Al(i.t), used |-> TRUE]
 Double(g) == [g EXCEPT !.imps[1] = @ \o <<Other(@[1])>>]
 
+(* a second file with the path of f and other contents under the other root: *)
+(* files under root 1 keep winning, files under root 2 are now shadowed      *)
+Shadow(g, f) == [g EXCEPT !.files[f].decoy = 3 - g.files[f].root]
+
 Inject(g, kind, f, j) ==
   CASE kind = "undefined" -> [g EXCEPT !.imps[f][j].pred = "Nope"]
     [] kind = "unused" -> [g EXCEPT !.imps[f][j].used = FALSE]
@@ -86,15 +93,20 @@ AClose(a, S) == LET T == S \cup UNION {a[f] : f \in S}
                 IN IF T = S THEN S ELSE AClose(a, T)
 AReachAll(n, a) == AClose(a, {1}) = 1..(n + 1)
 ACyclic(n, a) == \E f \in 1..(n + 1) : f \in AClose(a, a[f])
-(* The quick tier explores one third of the adjacencies over 3 imported     *)
-(* files (environment variable C12_SLICE = "0" | "1" | "2", chosen from the *)
-(* seed); "all" (default, thorough tier) explores every adjacency.          *)
+(* The quick tier explores one sixth of the adjacencies over 3 imported     *)
+(* files (environment variable C12_SLICE = "0".."5", chosen from the seed); *)
+(* "all" (default, thorough tier) explores every adjacency.                 *)
 Slice == IF "C12_SLICE" \in DOMAIN IOEnv THEN IOEnv.C12_SLICE ELSE "all"
 Code(n, a) == SumSet({f * 7 + SumSet(a[f]) * f : f \in 1..(n + 1)})
 InSlice(n, a) == \/ n < 3 \/ Slice = "all"
-                 \/ Slice = ToString(Code(n, a) % 3)
-AcAdjs(n) == {a \in Adjs(n) : AReachAll(n, a) /\ ~ACyclic(n, a) /\ InSlice(n, a)}
-CyAdjs(n) == {a \in Adjs(n) : AReachAll(n, a) /\ ACyclic(n, a) /\ InSlice(n, a)}
+                 \/ Slice = ToString(Code(n, a) % 6)
+(* computed once (TLC caches constant definitions without parameters) *)
+AcAdjTable == [n \in 1..MaxN |->
+                 {a \in Adjs(n) : AReachAll(n, a) /\ ~ACyclic(n, a) /\ InSlice(n, a)}]
+CyAdjTable == [n \in 1..MaxN |->
+                 {a \in Adjs(n) : AReachAll(n, a) /\ ACyclic(n, a) /\ InSlice(n, a)}]
+AcAdjs(n) == AcAdjTable[n]
+CyAdjs(n) == CyAdjTable[n]
 HasPair(n, a) == \E f \in 1..(n + 1) : Cardinality(a[f]) = 2
 
 (* ord = 2 (descending statement order) only differs if some file has 2 imports *)
@@ -110,7 +122,7 @@ Cyc(N, Styles, Nams, Vars) ==
 (* that the harness can run them as parallel TLC processes; "all" = union. *)
 Shard == IF "C12_SHARD" \in DOMAIN IOEnv THEN IOEnv.C12_SHARD ELSE "all"
 Shards == {"acc1", "acc2", "acc3", "acc4", "acc5", "dbl", "cyc1", "cyc2", "cyc3",
-           "undefined", "unused", "redefinition"}
+           "undefined", "unused", "redefinition", "agg", "shadow"}
 
 AcceptedN(m) == Acc(1..MaxN, 1..2, 1..3, {m}, Variants)
 Doubled == {Double(x) : x \in Acc(1..MaxN, {1}, 1..3, {1, 2}, {1, 2})}
@@ -118,6 +130,9 @@ CyclesS(s) == Cyc(1..MaxN, {s}, {1}, {1}) \cup Cyc(1..2, {s}, {2}, {2})
 ErrBase == Acc(1..MaxN, {1}, 1..3, {1}, {1, 2})
 ErrorsK(k) == UNION {{Inject(x, k, fj[1], fj[2]) : fj \in ImAllImps(x)} : x \in ErrBase}
 Fr(S) == {x \in S : ImInFragment(x)}
+AggGraphs == Acc(1..MaxN, {1}, 1..3, {1, 2}, AggVariants)
+Shadowed == UNION {{Shadow(x, f) : f \in 2..ImN(x)} :
+                     x \in Acc(1..MaxN, {1}, 1..3, {1, 2}, {2, 3})}
 
 GraphsOf(sh) ==
   CASE sh = "acc1" -> AcceptedN(1) [] sh = "acc2" -> AcceptedN(2)
@@ -127,6 +142,8 @@ GraphsOf(sh) ==
     [] sh = "cyc1" -> Fr(CyclesS(1)) [] sh = "cyc2" -> Fr(CyclesS(2))
     [] sh = "cyc3" -> Fr(CyclesS(3))
     [] sh \in {"undefined", "unused", "redefinition"} -> Fr(ErrorsK(sh))
+    [] sh = "agg" -> AggGraphs
+    [] sh = "shadow" -> Fr(Shadowed)
 Graphs == IF Shard = "all" THEN UNION {GraphsOf(sh) : sh \in Shards}
           ELSE GraphsOf(Shard)
 
@@ -151,8 +168,13 @@ Top == stack[Len(stack)]
 Taken == {parsed[f].prefix : f \in {h \in 2..ImN(g) : parsed[h].st = "done"}}
 
 (* the rules of file f as written: head name and mentioned names *)
-RuleRefs(r) == {IF r.body[i].k = "atom" THEN r.body[i].p ELSE r.body[i].r.p :
-                  i \in 1..Len(r.body)}
+RECURSIVE ConjRefs(_)
+ConjRefs(c) ==
+  CASE c.k = "atom" -> {c.p}
+    [] c.k = "unify" -> IF c.r.k = "pcall" THEN {c.r.p} ELSE {}
+    [] c.k = "or" -> UNION {UNION {ConjRefs(c.alts[a][i]) : i \in 1..Len(c.alts[a])} :
+                              a \in 1..Len(c.alts)}
+RuleRefs(r) == UNION {ConjRefs(r.body[i]) : i \in 1..Len(r.body)}
 LocalRules(f) ==
   LET ps == ImModule(g, f)
   IN FlattenSeq([i \in 1..Len(ps) |->
@@ -163,11 +185,11 @@ LocalRules(f) ==
 (* (not for main), then every imported local name becomes                  *)
 (* <prefix of the imported file><imported predicate>.                      *)
 MRename(f, pref, pp, n) ==
-  IF f # 1 /\ n \in ImDefs(f) THEN pref \o n
-  ELSE LET J == {j \in 1..Len(g.imps[f]) : ImLocal(g.imps[f][j]) = n}
+  IF f # 1 /\ n \in ImDefs(g, f) THEN pref \o n
+  ELSE LET J == {j \in 1..Len(ImImp(g, f)) : ImLocal(ImImp(g, f)[j]) = n}
        IN IF J = {} THEN n
           ELSE LET j == CHOOSE j \in J : TRUE
-               IN pp[g.imps[f][j].t].prefix \o g.imps[f][j].pred
+               IN pp[ImImp(g, f)[j].t].prefix \o ImImp(g, f)[j].pred
 
 Entries(f, pref, pp) ==
   LET lr == LocalRules(f)
@@ -176,9 +198,9 @@ Entries(f, pref, pp) ==
          refs |-> {MRename(f, pref, pp, n) : n \in lr[i].refs}]]
 
 Running == outcome = "running"
-AtImport == Running /\ Top.pc <= Len(g.imps[Top.f])
-AtEnd == Running /\ Top.pc > Len(g.imps[Top.f])
-Target == g.imps[Top.f][Top.pc].t
+AtImport == Running /\ Top.pc <= Len(ImImp(g, Top.f))
+AtEnd == Running /\ Top.pc > Len(ImImp(g, Top.f))
+Target == ImImp(g, Top.f)[Top.pc].t
 
 BeginFile ==   \* import of a file not seen yet: ParseFile recursion
   /\ AtImport /\ parsed[Target].st = "absent"
@@ -198,11 +220,11 @@ Circular ==    \* the file is being parsed further down the stack
   /\ UNCHANGED <<g, parsed, stack, opens, rules, emitted>>
 
 ImpKind(f, j) ==
-  LET i == g.imps[f][j]
-  IN IF i.pred \notin ImDefs(i.t) THEN "undefined"
-     ELSE IF ImLocal(i) \in ImDefs(f) THEN "redefinition"
+  LET i == ImImp(g, f)[j]
+  IN IF i.pred \notin ImDefs(g, i.t) THEN "undefined"
+     ELSE IF ImLocal(i) \in ImDefs(g, f) THEN "redefinition"
      ELSE IF ~i.used THEN "unused" ELSE "fine"
-BadImps(f) == {j \in 1..Len(g.imps[f]) : ImpKind(f, j) # "fine"}
+BadImps(f) == {j \in 1..Len(ImImp(g, f)) : ImpKind(f, j) # "fine"}
 
 RejectImport ==  \* end of file f: one of its imports is undefined / redefined / unused
   /\ AtEnd /\ BadImps(Top.f) # {}
@@ -228,6 +250,7 @@ CaseRec ==
   [g |-> g, expect |-> ImExpect(g), machine |-> outcome,
    shapes |-> SetToSeq(ImShapes(g)),
    mods |-> [f \in 1..ImN(g) |-> ImModule(g, f)],
+   copies |-> ImCopies(g),
    flat |-> IF ImExpect(g) = "ok" THEN ImFlatten(g) ELSE [preds |-> <<>>, rec |-> <<>>, makes |-> <<>>],
    query |-> ImQuery,
    prefixes |-> [f \in 1..ImN(g) |-> parsed[f].prefix]]
@@ -256,7 +279,7 @@ CycleIsCircular ==
   /\ outcome = "circular" => ImHasCycle(g)
   /\ (outcome # "running" /\ ImHasCycle(g)) => outcome = "circular"
 
-Refines == outcome # "running" => outcome = ImExpect(g)
+Refines == (outcome # "running" /\ ~emitted) => outcome = ImExpect(g)
 
 (* outcome ok => the rule set is the union over files of Rename_f(rules of *)
 (* f), each file once, main's first, and it IS the flattened program up to *)
@@ -268,10 +291,10 @@ Expected(f) ==
         [file |-> f, head |-> MName(ImResolveFP(g, f, lr[i].head)),
          refs |-> {MName(ImResolveFP(g, f, n)) : n \in lr[i].refs}]]
 Count(s, e) == Cardinality({i \in 1..Len(s) : s[i] = e})
-AllDefs == {fp \in (1..ImN(g)) \X ({"Helper", "M", "Val"} \cup {ImOwn(f) : f \in 1..ImN(g)}) :
-              fp[2] \in ImDefs(fp[1])}
-OkIsFlatten ==
-  outcome = "ok" =>
+AllDefs == {fp \in (1..ImN(g)) \X ({"Helper", "M", "Val", "Agg"} \cup {ImOwn(f) : f \in 1..ImN(g)}) :
+              fp[2] \in ImDefs(g, fp[1])}
+OkIsFlatten ==      \* (the state after Emit differs only in `emitted`)
+  (outcome = "ok" /\ ~emitted) =>
     LET exp == FlattenSeq([f \in 1..ImN(g) |-> Expected(f)])
     IN /\ Len(rules) = Len(exp)
        /\ \A i \in 1..Len(exp) : Count(rules, exp[i]) = Count(exp, exp[i])
